@@ -72,6 +72,27 @@ def _worker(ys):
                     got = -got if got is not None else None
                 if got != exp:
                     bad.setdefault("diff", []).append((d.isoformat(), 0, "%s .. %s: %s" % (d.isoformat(), d2.isoformat(), got), str(exp)))
+            # the same instant held as an epoch value: every unit of duration adds what it adds to the date-time
+            exp = int((d - EPOCH).total_seconds())
+            if isinstance(sx, dict) and sx.get("sexy") == exp:
+                for unit, cnts in (("DT_DURD", (1, -1, 40)), ("DT_DURWK", (1, -1, 5)), ("DT_DURMO", (1, -1, 13)), ("DT_DURYR", (1, -4)),
+                                   ("DT_DURQU", (1, -3)), ("DT_DURBD", (1, -1, 7)), ("DT_DURH", (25, -1)), ("DT_DURM", (1500,)), ("DT_DURS", (-90000, 59))):
+                    for c in cnts:
+                        dur = {"durtyp": E[unit], "dv": c, "neg": 0} if unit in MULT else {"d.durtyp": E[unit], "d.dv": c, "neg": 0}
+                        n += 1
+                        try:
+                            r = mk(fadd).run([dict(sx), dict(dur)])
+                            got = r.get("sexy") if isinstance(r, dict) else r
+                            via = mk(fconv).run([E["DT_SEXY"], mk(tu.func("dt_fixup")).run([mk(fadd).run([dict(src), dict(dur)])])])
+                            want = via.get("sexy") if isinstance(via, dict) else via
+                        except fold.Abort as ex:
+                            got, want = "abort: %s" % ex, None
+                        if unit in MULT or unit in ("DT_DURD", "DT_DURWK"):
+                            want = exp + c * (MULT.get(unit) or (86400 if unit == "DT_DURD" else 604800))
+                        if got != want:
+                            lst = bad.setdefault("sexy", [])
+                            if len(lst) < 300:
+                                lst.append((d.isoformat(), c, "%+d %s on the epoch value %d gives %s" % (c, unit, exp, got), str(want)))
             # two additions in a row on the same value (what the first leaves in the carry slot must not count again)
             for (u1, c1) in (("DT_DURH", 2), ("DT_DURH", -2), ("DT_DURS", 3700), ("DT_DURS", -3700), ("DT_DURM", 1), ("DT_DURS", 86400)):
                 for (u2, c2) in (("DT_DURH", 24), ("DT_DURH", -48), ("DT_DURS", 0), ("DT_DURS", 86400), ("DT_DURS", -86400), ("DT_DURM", 1440),
@@ -131,7 +152,10 @@ def run_parallel(R, P, rule, every=False, jobs=12):
             if f is not None and getattr(f, "body", None) is not None:
                 return f
         return None
-    E = {k: tu.enum_value(k) for k in ("DT_YMD", "DT_HMS", "DT_SEXY", "DT_DURS", "DT_DURM", "DT_DURH")}
+    E = {k: tu.enum_value(k) for k in ("DT_YMD", "DT_HMS", "DT_SEXY", "DT_DURS", "DT_DURM", "DT_DURH", "DT_DURD", "DT_DURWK", "DT_DURMO",
+                                       "DT_DURYR", "DT_DURQU", "DT_DURBD")}
+    if tu.func("dt_fixup") is None:
+        raise AnalysisBroken("dt_fixup vanished")
     if None in E.values():
         raise AnalysisBroken("%s: tags not found (%s)" % (rule, E))
     _G.update(tu=tu, resolve=resolve, E=E, every=every)
@@ -156,6 +180,13 @@ def run_parallel(R, P, rule, every=False, jobs=12):
                   "by %s" % (len(lst), lst[0][2], lst[0][3]))
     else:
         R.ob(rule, "difference in seconds: the difference of the epoch values for every pair of grid points within two years", True)
+    if "sexy" in bad:
+        lst = sorted(bad["sexy"])
+        R.finding(rule, tu.func("dt_dtadd"), "adding to epoch values, decoded", "%s%d (instant, unit, count) points differ; first: at %s %s, the "
+                  "date-time plus the same duration is at %s" % (">= " if len(lst) >= 300 else "", len(lst), lst[0][0], lst[0][2], lst[0][3]))
+    else:
+        R.ob(rule, "adding days, weeks, months, quarters, years, business days, hours, minutes and seconds to an instant held as an epoch "
+             "value: the epoch value of the date-time plus the same duration", True)
     if "twice" in bad:
         lst = sorted(bad["twice"])
         R.finding(rule, tu.func("dt_dtadd"), "two additions in a row, decoded", "%s%d (start, first, second) points differ from the timeline; first: "
